@@ -118,20 +118,15 @@ func (g zzGraph) zzNames(specs []string, i int) []string {
 	return zzSplit(specs[i], ',')
 }
 
-// zzModelProto builds the ModelProto; initializer data come from initData.
-func (g zzGraph) zzModelProto(initData map[string][]float32) *onnx.ModelProto {
+// zzModelProto builds the ModelProto; inits are the parsed initializers (float32 symbolic, int64 concrete, bool).
+func (g zzGraph) zzModelProto(inits []zzTData) *onnx.ModelProto {
 	gp := &onnx.GraphProto{}
 	for _, spec := range g.inputs {
 		name, shape := zzParseTensorSpec(spec)
 		gp.Input = append(gp.Input, zzFloatValueInfo(name, shape))
 	}
-	for _, spec := range g.inits {
-		name, shape := zzParseTensorSpec(spec)
-		dims := make([]int64, len(shape))
-		for i, d := range shape {
-			dims[i] = int64(d)
-		}
-		gp.Initializer = append(gp.Initializer, &onnx.TensorProto{Name: name, DataType: 1, Dims: dims, FloatData: append([]float32(nil), initData[name]...)})
+	for _, d := range inits {
+		gp.Initializer = append(gp.Initializer, d.zzProto())
 	}
 	for _, name := range g.outputs {
 		gp.Output = append(gp.Output, zzValueInfo(name, nil))
@@ -195,28 +190,24 @@ func (g zzGraph) zzReference(env map[string]tensor.Tensor) (map[string]tensor.Te
 func H_C01(v *zzverif.T) {
 	v.Ring()
 	g := zzReadGraph(v)
-	// symbolic data for caller inputs and initializers
-	callerData := map[string][]float32{}
-	initData := map[string][]float32{}
-	shapes := map[string][]int{}
+	// symbolic data for caller inputs and initializers (int64 initializers - axes, indices, shapes - are concrete)
+	var inits []zzTData
 	for _, spec := range g.inits {
-		name, shape := zzParseTensorSpec(spec)
-		initData[name] = zzverif.Syms[float32](v, "init_"+name, zzverif.Prod(shape))
-		shapes[name] = shape
+		inits = append(inits, zzParseSpec(v, spec, "init_"))
 	}
 	supplied := v.CStrs("supplied")
+	var caller []zzTData
 	for _, spec := range g.inputs {
-		name, shape := zzParseTensorSpec(spec)
-		shapes[name] = shape
+		name, _ := zzParseTensorSpec(spec)
 		for _, s := range supplied {
 			if s == name {
-				callerData[name] = zzverif.Syms[float32](v, "in_"+name, zzverif.Prod(shape))
+				caller = append(caller, zzParseSpec(v, spec, "in_"))
 			}
 		}
 	}
 	var m *Model
 	var lerr error
-	panicked := v.Try(func() { m, lerr = NewModel(g.zzModelProto(initData)) })
+	panicked := v.Try(func() { m, lerr = NewModel(g.zzModelProto(inits)) })
 	v.Assert("C01.model-loads", !panicked && lerr == nil)
 	if panicked || lerr != nil {
 		return
@@ -224,12 +215,12 @@ func H_C01(v *zzverif.T) {
 	in := Tensors{}
 	refEnv := map[string]tensor.Tensor{}
 	// the reference gets its own tensor objects
-	for name, d := range initData {
-		refEnv[name] = zzverif.NewTensor(d, shapes[name])
+	for _, d := range inits {
+		refEnv[d.name] = d.zzTensor()
 	}
-	for name, d := range callerData {
-		in[name] = zzverif.NewTensor(d, shapes[name])
-		refEnv[name] = zzverif.NewTensor(d, shapes[name]) // a caller tensor overrides the initializer default
+	for _, d := range caller {
+		in[d.name] = d.zzTensor()
+		refEnv[d.name] = d.zzTensor() // a caller tensor overrides the initializer default
 	}
 	var out Tensors
 	var rerr error
